@@ -477,6 +477,28 @@ pub fn child_shape(k: usize) {
     ctl.quit();
 }
 
+/// C04 child: free-running threads destroy DAGs with shared children side by side; prints the worst
+/// per-object counters seen over `n` iterations.
+pub fn child_free(n: usize, pairs: usize) {
+    crate::sched::install(crate::rcworld::ev_hook);
+    verif::set_class_mask(0);
+    let (mut mp, mut md, mut mf, mut ord, mut uaf, mut leaked, mut objs) = (0, 0, 0, true, false, 0, 0);
+    for _ in 0..n {
+        let r = crate::rcworld::free_run_dag(pairs, 0);
+        objs += r.0;
+        mp = mp.max(r.1);
+        md = md.max(r.2);
+        mf = mf.max(r.3);
+        ord &= r.4;
+        uaf |= r.5;
+        leaked += r.6;
+    }
+    println!(
+        "{{\"iterations\":{},\"objs\":{},\"max_npop\":{},\"max_ndrop\":{},\"max_nfree\":{},\"order_ok\":{},\"uaf\":{},\"leaked\":{}}}",
+        n, objs, mp, md, mf, ord as u8, uaf as u8, leaked
+    );
+}
+
 // ---- parent side ------------------------------------------------------------------------------
 pub struct Outcome {
     pub status: &'static str,
@@ -566,6 +588,12 @@ pub fn run_parent(kind: &str, tier: &str, exe: &str) -> Vec<String> {
                 for res in [0usize, 3, 7, 11, 14, 15] {
                     cases.push((format!("\"shape\":\"{}\",\"n\":{},\"res\":{},\"age\":4,\"held\":0", shape, n, res), vec!["child-c06".into(), shape.into(), n.to_string(), res.to_string(), "4".into(), "0".into()], 300));
                 }
+            }
+        }
+        "free" => {
+            let (children, n) = if thorough { (96, 600) } else { (24, 300) };
+            for c in 0..children {
+                cases.push((format!("\"child\":{},\"n\":{},\"pairs\":20", c, n), vec!["child-free".into(), n.to_string(), "20".into()], 600));
             }
         }
         "c20" => {
